@@ -208,10 +208,23 @@ pub fn gen(r: &mut Rng, cases: usize, size: usize, out: &mut Out) {
                 out.line(&format!("cubes #{a} {} {}", r.below(2), r.usize(nv)));
             }
         }
-        for _ in 0..3 {
-            let k = r.range(1, 6);
-            let list: Vec<String> = (0..k).map(|_| format!("#{}", r.usize(len))).collect();
-            out.line(&format!("impact {} {}", r.usize(k), list.join(" ")));
+        // a few impact queries; in one case of twelve several hundred on the same store, drawn from a small pool
+        // so that the same query comes back after hundreds of others (anything that keeps per-node marks,
+        // counters or rounds between queries)
+        let many = r.chance(1, 12);
+        let pool: Vec<String> = (0..if many { 40 } else { 3 })
+            .map(|_| {
+                let k = if many { r.range(1, 2) } else { r.range(1, 6) };
+                let list: Vec<String> = (0..k).map(|_| format!("#{}", r.usize(len))).collect();
+                format!("impact {} {}", r.usize(k), list.join(" "))
+            })
+            .collect();
+        // random order: a query returns after a RANDOM number of others (gaps of every length, also exact
+        // multiples of small counter periods)
+        let reps = if many { r.range(1200, 1600) } else { pool.len() };
+        for i in 0..reps {
+            let j = if many { r.usize(pool.len()) } else { i % pool.len() };
+            out.line(&pool[j]);
         }
         out.line("finish");
     }
